@@ -271,6 +271,7 @@ func workerCmd(spec EngineSpec, args []string) {
 	shrinkTries := fs.Int("shrink", 400, "max executions spent minimising one failure")
 	maxViol := fs.Int("maxviol", 4, "stop after this many distinct violations")
 	nsamples := fs.Int("samples", 2, "sample runs to write out")
+	knownFlag := fs.String("known", "", "json list of violation keys that are open known findings: observed and counted, but neither minimised nor written as replay files")
 	cpuprof := fs.String("cpuprofile", "", "write a CPU profile (harness tuning only)")
 	fs.Parse(args)
 	if *cpuprof != "" {
@@ -296,6 +297,15 @@ func workerCmd(spec EngineSpec, args []string) {
 	fps := map[uint64]struct{}{}
 	states := map[uint64]struct{}{}
 	seenKeys := map[string]bool{}
+	known := map[string]bool{}
+	if *knownFlag != "" {
+		var ks []string
+		if json.Unmarshal([]byte(*knownFlag), &ks) == nil {
+			for _, k := range ks {
+				known[k] = true
+			}
+		}
+	}
 	start := time.Now()
 
 	for run := *worker; run < *runs; run += *nworkers {
@@ -349,6 +359,14 @@ func workerCmd(spec EngineSpec, args []string) {
 			continue
 		}
 		seenKeys[out.Class+"|"+out.Key] = true
+		if known[out.Key] {
+			// An open known finding: the driver prints it as KNOWN-FINDING and
+			// discards it, so no minimisation and no replay file. It does not
+			// count toward maxviol either (it must not stop the search for
+			// other violations).
+			res.Violations = append(res.Violations, Violation{Class: out.Class, Key: out.Key, Detail: out.Detail, Run: run, Mode: mode})
+			continue
+		}
 
 		// Minimise, then re-execute the minimised tape verbosely.
 		//
@@ -404,7 +422,13 @@ func workerCmd(spec EngineSpec, args []string) {
 		res.Violations = append(res.Violations, Violation{Class: rep.Class, Key: rep.Key, Detail: rep.Detail,
 			Run: run, Mode: mode, Replay: path, TapeLen: len(min), OrigLen: len(orig), ShrinkN: tries,
 			Replayed: replayed})
-		if len(res.Violations) >= *maxViol {
+		fresh := 0
+		for _, v := range res.Violations {
+			if !known[v.Key] {
+				fresh++
+			}
+		}
+		if fresh >= *maxViol {
 			break
 		}
 	}
